@@ -9,5 +9,8 @@ import D3.Properties.C19
 #print axioms D3.C19.jolt_intersection_terminates
 #print axioms D3.C19.jolt_no_infinite_run
 #print axioms D3.C19.hill_climbing_bound
+#print axioms D3.C19.hill_climbing_bound_anyArith
+#print axioms D3.C19.hill_climbing_asIs_before_fix_counterexample
+#print axioms D3.Term.hillClimb_terminates_any
 #print axioms D3.Term.distStep_unknown
 #print axioms D3.Term.interStep_unknown
